@@ -279,6 +279,8 @@ def select(prop, thorough, rng):
         kinds = ['tok', 'ret', 'skip', 'sw', 'sw', 'swret', 'swret', 'cont']
         defs += [F.rand_def(rng, 'rs%d' % j, nsets=rng.choice([2, 3, 3, 4]), kinds=kinds, maxrules=3, depth=1, tags=['C03'], empty_p=0.35) for j in range(nrand)]
         defs += [dyn_def(rng, 'dy%d' % j) for j in range(nrand // 3)]
+        es = empty_set_family(rng)
+        defs += es if thorough else es[:4]
         defs += [stale_family(rng, 'st%d' % j) for j in range(nrand // 3)]
     elif prop == 'C04':
         defs = pick('C04')
@@ -315,6 +317,8 @@ def select(prop, thorough, rng):
         defs += [F.rand_def(rng, 'ak%d' % j, kinds=['ret', 'cont', 'rcont', 'skip', 'tok', 'sw', 'swret'], ctx_p=0.1, eof_p=0.1, tags=['C10']) for j in range(nrand // 2)]
         defs += [stale_family(rng, 'st%d' % j) for j in range(nrand // 2 + 3)]
         defs += [fdyn_def(rng, 'fa%d' % j, logging=True) for j in range(nrand // 3)]
+        sg = sugar_family(rng)
+        defs += sg if thorough else sg[:12]
     elif prop == 'C11':
         defs = class_defs(rng, thorough)
         variants = ((False, False),)
@@ -361,6 +365,50 @@ def builtin_defs(thorough):
     out.append(Def('bi_combo1', [('Init', [Rule(diff(bi('ascii_alphanumeric'), cs(('a', 'f'), '0')), 'tok'), Rule(alt(bi('ascii_digit'), bi('ascii_punctuation')), 'tok'), Rule(ANY, 'tok')])], tags=['builtin', 'C13'], nmax=1))
     out.append(Def('bi_combo2', [('Init', [Rule(diff(bi('numeric'), bi('ascii_digit')), 'tok'), Rule(cat(bi('ascii_uppercase'), bi('ascii_lowercase')), 'tok'), Rule(ANY, 'tok')])], tags=['builtin', 'C13'], nmax=2))
     out.append(Def('bi_ws_ctx', [('Init', [Rule(ch('a'), 'tok', ctx=bi('whitespace')), Rule(ch('a'), 'tok', ctx=bi('numeric')), Rule(ANY, 'tok')])], tags=['builtin', 'C13'], nmax=2))
+    return out
+
+
+def sugar_family(rng):
+    """the sugar forms `re,` and `re = t` on regexes that run through loops (non-inlined states) and end in a terminal
+    accepting state, a non-terminal accepting state, or an alternation - in Init and in another rule set"""
+    shapes = [cat(ch('#'), plus(cs(('0', '9'))), ch(';')), cat(st('--'), star(diff(ANY, ch('\n'))), ch('\n')), cat(ch('a'), star(alt(ch('b'), ch('c'))), ch('d')),
+              cat(plus(st('ab')), ch('c')), plus(cs(('a', 'c'))), cat(ch('x'), opt(ch('y')), ch('z')), alt(st('ab'), cat(ch('a'), plus(ch('c')), ch('b')))]
+    out = []
+    for j, sh in enumerate(shapes):
+        for kind in ('skip', 'tok'):
+            other = Rule(plus(cs(('e', 'g'))), 'ret')
+            d1 = Def('su%d%s' % (j, kind[0]), [('Init', [Rule(sh, kind), other, Rule(ch(' '), 'skip')])], tags=['sugar'])
+            d2 = Def('sv%d%s' % (j, kind[0]), [('Init', [Rule(ch('>'), 'sw', target='R1'), other]),
+                                              ('R1', [Rule(sh, kind), Rule(plus(cs(('e', 'g'))), 'swret', target='Init'), Rule(ch('<'), 'sw', target='Init')])], tags=['sugar'])
+            out += [d1, d2]
+    rng.shuffle(out)
+    return out
+
+
+def empty_set_family(rng):
+    """empty rule sets (`rule E {}`) at every position after Init, with switches into the rule sets declared after them"""
+    out = []
+    for j in range(6):
+        names = ['Init', 'A', 'B']
+        pos = 1 + (j % 3)
+        names.insert(pos, 'E')
+        if j >= 3:
+            names.insert(rng.randrange(1, len(names) + 1), 'E2')
+        real = [n for n in names if not n.startswith('E')]
+        sets = []
+        for n in names:
+            if n.startswith('E'):
+                sets.append((n, []))
+                continue
+            rules = []
+            for t in names:
+                if t != n:
+                    c = {'Init': 'i', 'A': 'a', 'B': 'b', 'E': 'e', 'E2': 'f'}[t]
+                    rules.append(Rule(ch(c), rng.choice(['sw', 'swret']), target=t))
+            rules.append(Rule(cat(ch('x'), opt(ch({'Init': '1', 'A': '2', 'B': '3'}[n]))), 'tok'))
+            rng.shuffle(rules)
+            sets.append((n, rules))
+        out.append(Def('es%d' % j, sets, tags=['emptyset']))
     return out
 
 
@@ -419,6 +467,10 @@ def loc_def(rng, name, text=False):
         r = cat(*parts) if n > 1 else parts[0]
         kind = rng.choice(['ret', 'ret', 'tok', 'skip', 'cont', 'rcont', 'mret', 'mret'] if text else ['ret', 'ret', 'tok', 'skip', 'cont', 'rcont'])
         rules.append(Rule(r, kind))
+    if text:
+        # a word-like rule over arbitrary characters whose action reads match_() (the usual identifier / string rule)
+        word = plus(diff(ANY, cs('\n', '\t', ' '))) if rng.random() < 0.5 else cat(diff(ANY, cs('\n', ' ')), opt(ANY))
+        rules.insert(rng.randrange(len(rules) + 1), Rule(word, 'mret'))
     return Def(name, [('Init', rules)], tags=['loc'])
 
 
